@@ -709,7 +709,41 @@ func drawSchemaCase(t *rapid.T) genCase {
 		sort.Slice(f.PublicDependency, func(a, b int) bool { return f.PublicDependency[a] < f.PublicDependency[b] })
 	}
 	// sometimes every later file publicly imports the first one (siblings forwarding the same symbols)
-	if len(files) >= 3 && rapid.IntRange(0, 4).Draw(t, "fan-in") == 4 {
+	pinned := false
+	if len(files) >= 3 && rapid.IntRange(0, 2).Draw(t, "fan-in") == 2 {
+		// … and sometimes that first file is a hybrid-API editions file in which one message pins
+		// its own API level: the generator switches API levels of shared message objects while it
+		// emits the _protoopaque variant, which the forwarding declarations of importers depend on
+		if f0 := files[0]; f0.GetSyntax() == "editions" && len(f0.MessageType) > 0 && rapid.Bool().Draw(t, "pinned-api") {
+			hasDep := false
+			for _, d := range f0.Dependency {
+				hasDep = hasDep || d == "google/protobuf/go_features.proto"
+			}
+			if !hasDep {
+				f0.Dependency = append(f0.Dependency, "google/protobuf/go_features.proto")
+			}
+			setLevel := func(fs **descriptorpb.FeatureSet, lv gofeaturespb.GoFeatures_APILevel) {
+				if *fs == nil {
+					*fs = &descriptorpb.FeatureSet{}
+				}
+				gf := &gofeaturespb.GoFeatures{}
+				if proto.HasExtension(*fs, gofeaturespb.E_Go) {
+					gf = proto.Clone(proto.GetExtension(*fs, gofeaturespb.E_Go).(*gofeaturespb.GoFeatures)).(*gofeaturespb.GoFeatures)
+				}
+				gf.ApiLevel = lv.Enum()
+				proto.SetExtension(*fs, gofeaturespb.E_Go, gf)
+			}
+			if f0.Options == nil {
+				f0.Options = &descriptorpb.FileOptions{}
+			}
+			setLevel(&f0.Options.Features, gofeaturespb.GoFeatures_API_HYBRID)
+			m0 := f0.MessageType[rapid.IntRange(0, len(f0.MessageType)-1).Draw(t, "pinned-msg")]
+			if m0.Options == nil {
+				m0.Options = &descriptorpb.MessageOptions{}
+			}
+			setLevel(&m0.Options.Features, rapid.SampledFrom([]gofeaturespb.GoFeatures_APILevel{gofeaturespb.GoFeatures_API_OPEN, gofeaturespb.GoFeatures_API_OPAQUE}).Draw(t, "pinned-level"))
+			pinned = true
+		}
 		for _, f := range files[1:] {
 			at := -1
 			for i, d := range f.GetDependency() {
@@ -734,6 +768,11 @@ func drawSchemaCase(t *rapid.T) genCase {
 	// Go packages: option go_package in several spellings, or left to an M parameter
 	needM := map[string]string{}
 	for i, f := range files {
+		if pinned {
+			// forwarding declarations exist only across Go packages: one package per file
+			setGoPackage(f, fmt.Sprintf("example.com/gen/q%d;q%dpb", i, i))
+			continue
+		}
 		if f.GetOptions().GetGoPackage() != "" {
 			continue
 		}
@@ -753,9 +792,14 @@ func drawSchemaCase(t *rapid.T) genCase {
 	for i := range idx {
 		idx[i] = i
 	}
+	if pinned && rapid.IntRange(0, 3).Draw(t, "gen-importers-only") > 0 {
+		// the imported file itself is not requested: its symbols are derived once per importer, so the
+		// importers' contents depend on the order in which the generator reaches them
+		idx = idx[1:]
+	}
 	if len(idx) > 1 {
 		idx = rapid.Permutation(idx).Draw(t, "gen-order")
-		if rapid.Bool().Draw(t, "gen-subset") {
+		if !pinned && rapid.Bool().Draw(t, "gen-subset") {
 			idx = idx[:rapid.IntRange(1, len(idx)).Draw(t, "gen-count")]
 		}
 	}
